@@ -52,7 +52,7 @@ type TreePlan struct {
 	Ops        []TOp `json:"ops"`
 }
 
-const maxLegalKey = uint64(math.MaxUint64 - 2) // [1, 2^64-2]
+const maxLegalKey = uint64(math.MaxUint64 - 1) // keys in [1, 2^64-2]; 2^64-2 is MaxUint64-1
 
 // genTree generates a history by running the generator against the reference
 // model, so that keys, values and thresholds can be drawn next to existing ones.
